@@ -5,6 +5,7 @@ import Driver.ConcDriver
 import Driver.HeterDriver
 import Driver.ConcLDriver
 import Driver.InvDriver
+import Driver.HSlotDriver
 import EventppVerif.Util.Wrappers
 import EventppVerif.Util.Removers
 /-
@@ -269,6 +270,9 @@ def main (args : List String) : IO Unit := do
     return
   if mode = "inv" then
     ID.main lines
+    return
+  if mode = "hslot" then
+    HSD.main lines
     return
   if mode = "concl" then
     CLD.main lines
